@@ -108,6 +108,73 @@ theorem waiting_in_heap_partial (cfg : Cfg) (t0 : Nat) (ls : List Label) (s : St
     (b : Nat) (hlive : (phaseOf s.reqs b).live = true) : b ∈ s.heap :=
   (run_finv ls (inv_init cfg t0) (finv_init cfg t0) hrun hclean).2.inHeap b hlive
 
+/-- "Dropped and never retried", any state, any step of any thread: a request that is not in the
+    heap is neither put back nor handed off — so a waiter dropped by a failed hand-off can only leave
+    through its TTL. -/
+theorem dropped_never_released (cfg : Cfg) (s s' : State) (l : Label) (e : Ev) (b : Nat)
+    (hstep : step cfg s l = some (s', e)) (hb : b < s.reqs.length) (hout : b ∉ s.heap) :
+    b ∉ s'.heap ∧ ∀ rel, e = .roll rel → b ∉ rel := by
+  cases l with
+  | tick d =>
+    simp only [step, Option.some.injEq, Prod.mk.injEq] at hstep
+    obtain ⟨rfl, rfl⟩ := hstep
+    exact ⟨hout, by simp⟩
+  | enq prio ttl =>
+    simp only [step] at hstep
+    split at hstep
+    · simp only [Option.some.injEq, Prod.mk.injEq] at hstep
+      obtain ⟨rfl, rfl⟩ := hstep
+      exact ⟨hout, by simp⟩
+    · split at hstep
+      · simp only [Option.some.injEq, Prod.mk.injEq] at hstep
+        obtain ⟨rfl, rfl⟩ := hstep
+        exact ⟨hout, by simp⟩
+      · simp only [Option.some.injEq, Prod.mk.injEq] at hstep
+        obtain ⟨rfl, rfl⟩ := hstep
+        refine ⟨?_, by simp⟩
+        simp only [List.mem_append, List.mem_singleton, not_or]
+        exact ⟨hout, by omega⟩
+  | park r =>
+    simp only [step] at hstep
+    split at hstep
+    · simp only [Option.some.injEq, Prod.mk.injEq] at hstep
+      obtain ⟨rfl, rfl⟩ := hstep
+      exact ⟨hout, by simp⟩
+    · simp at hstep
+  | expire r =>
+    simp only [step] at hstep
+    split at hstep
+    · split at hstep
+      · simp only [Option.some.injEq, Prod.mk.injEq] at hstep
+        obtain ⟨rfl, rfl⟩ := hstep
+        exact ⟨hout, by simp⟩
+      · simp at hstep
+    · simp at hstep
+  | finish r =>
+    simp only [step] at hstep
+    split at hstep
+    · simp only [Option.some.injEq, Prod.mk.injEq] at hstep
+      obtain ⟨rfl, rfl⟩ := hstep
+      exact ⟨hout, by simp⟩
+    · simp only [Option.some.injEq, Prod.mk.injEq] at hstep
+      obtain ⟨rfl, rfl⟩ := hstep
+      exact ⟨hout, by simp⟩
+    · simp at hstep
+  | roll =>
+    have hroll : ∃ rel, e = .roll rel := by
+      simp only [step] at hstep
+      split at hstep
+      · simp only [Option.some.injEq, Prod.mk.injEq] at hstep
+        exact ⟨_, hstep.2.symm⟩
+      · simp at hstep
+    obtain ⟨rel, rfl⟩ := hroll
+    obtain ⟨c, f⟩ := roll_facts hstep
+    refine ⟨fun h => hout (f.heapSub b h), ?_⟩
+    intro rel' he h
+    simp only [Ev.roll.injEq] at he
+    subst he
+    exact hout (f.relSub b h)
+
 /-! ### Witnesses: the unchanged code violates the full-strength property -/
 
 /-- quota 1 per 1000 ns window, queue size 5, start at 10000. -/
@@ -174,6 +241,13 @@ example : ∃ s s' es, run wCfg (init wCfg 10000) (orderly.take 8) = some (s, es
     step wCfg s .roll = some (s', .roll [2]) ∧ 1 ∈ s.heap ∧ (phaseOf s.reqs 1).isParked = true ∧
     wCfg.quota ≤ s'.counter := by
   refine ⟨_, _, _, rfl, rfl, ?_⟩
+  decide
+
+/-- Hypotheses of `dropped_never_released` are met by a LIVE waiter: after the first roll-over of
+    `lostHandoff` request 1 is still waiting for its turn but is no longer in the heap. -/
+example : ∃ s es, run wCfg (init wCfg 10000) (lostHandoff.take 5) = some (s, es) ∧
+    1 < s.reqs.length ∧ 1 ∉ s.heap ∧ (phaseOf s.reqs 1).live = true := by
+  refine ⟨_, _, rfl, ?_⟩
   decide
 
 /-- The queue-size bound is tight and a full queue rejects: size 1, the third request is refused. -/
